@@ -873,11 +873,63 @@ impl World for QueryWorld {
                 ops.push(Op { c: o.below(3) as u8, k: K_CLAUSE, a: gen_clause(&mut o, n) });
             }
         }
+        // BDD variant: one small run in 200 is a "counter period" history: f and g over disjoint variables; f is
+        // conditioned, then exactly M conditioning queries work on g only, then f is conditioned again with other
+        // arguments; M sits next to 2^8 / 2^16 minus a small offset (see worlds::bdd::period_ops)
+        let period = variant == 0 && !wide_bdd && !marathon && c.below(200) == 0;
+        if period {
+            cfg.insert("nvars".into(), 7);
+            cfg.insert("table_cap".into(), 16);
+            cfg.insert("period".into(), 1);
+            let at = |ops: &Vec<Op>, j: usize| -> i64 { (2 * (ops.iter().filter(|x| x.k != Q || x.a[0] == Q_CONDITION).count() - 1 - j)) as i64 };
+            for v in [0i64, 1, 2, 4, 5, 6] {
+                ops.push(Op { c: 0, k: S_VAR, a: [v, 0, 0, 1] });
+            }
+            let bin = |o: &mut Rng| *o.pick(&[S_AND, S_OR, S_XOR]);
+            let (k0, k1, k2, k3) = (bin(&mut o), bin(&mut o), bin(&mut o), bin(&mut o));
+            let a = [at(&ops, 0), at(&ops, 1), 0, 0];
+            ops.push(Op { c: 0, k: k0, a });
+            let a = [at(&ops, 6), at(&ops, 2), 0, 0];
+            ops.push(Op { c: 0, k: k1, a });
+            let a = [at(&ops, 3), at(&ops, 4), 0, 0];
+            ops.push(Op { c: 0, k: k2, a });
+            let a = [at(&ops, 8), at(&ops, 5), 0, 0];
+            ops.push(Op { c: 0, k: k3, a });
+            let (f, g) = (7usize, 9usize);
+            let (n1, n2) = (1 + o.below(4), 2 + o.below(5));
+            for _ in 0..n1 {
+                let a = [Q_CONDITION, at(&ops, f), o.below(3) as i64, o.below(2) as i64];
+                ops.push(Op { c: 0, k: Q, a });
+            }
+            let per: u64 = if c.below(4) == 0 { 256 } else { 65_536 };
+            let m = match c.below(8) {
+                0 => per + 1,
+                1 => per,
+                _ => per - 1 - c.below(2 * (n1 + n2) + 2),
+            };
+            // (the pool index of g stays 9; only the pool size grows)
+            let mut n_pool = ops.iter().filter(|x| x.k != Q || x.a[0] == Q_CONDITION).count();
+            for _ in 0..m {
+                ops.push(Op { c: 0, k: Q, a: [Q_CONDITION, (2 * (n_pool - 1 - g)) as i64, 4 + o.below(3) as i64, o.below(2) as i64] });
+                n_pool += 1;
+            }
+            for _ in 0..n2 {
+                ops.push(Op { c: 0, k: Q, a: [Q_CONDITION, (2 * (n_pool - 1 - f)) as i64, o.below(3) as i64, o.below(2) as i64] });
+                n_pool += 1;
+            }
+            return Plan { world: "query".into(), target: target.into(), seed: run_seed, cfg, ops, faults: Faults::Random { seed: mix(run_seed, 83), rates: [0; NUM_SITES] } };
+        }
         let ncallers = 1 + c.below(4);
         let setup = 3 + o.below(14);
         for _ in 0..setup {
             let k = if wide_bdd && o.below(5) == 0 { S_CHAIN } else { *o.pick(&[S_VAR, S_VAR, S_NEG, S_AND, S_AND, S_OR, S_OR, S_XOR, S_ITE, S_CHILD]) };
             ops.push(Op { c: s.below(ncallers) as u8, k, a: [gen_operand(&mut o), gen_operand(&mut o), gen_operand(&mut o), o.below(2) as i64] });
+        }
+        // big top-down runs, every other one: the statistics entry points are called right after the first
+        // compilations, hashes are read at the end (the order in which a large store is first walked matters)
+        let stats_first = td_big && c.bool();
+        if stats_first {
+            ops.push(Op { c: 0, k: Q, a: [Q_STATS, 0, 0, 0] });
         }
         // swarm: each query kind on or off per run
         let mut qw = [0u32; NQ];
@@ -915,6 +967,11 @@ impl World for QueryWorld {
                     let last = ops.last().unwrap().clone();
                     ops.push(last);
                 }
+            }
+        }
+        if stats_first {
+            for j in 0..3 {
+                ops.push(Op { c: 0, k: Q, a: [Q_CACHED_SEMHASH, 2 * j, 0, 0] });
             }
         }
         Plan {
